@@ -325,6 +325,7 @@ def extract(repo):
         c = read(repo, 'scrunch/src/bit_vector/cf_rrr.rs')
         return eval_int(const_int(c, 'PARAM_WORDS_PER_BLOCK'))
     grab('scrunchCfRrrWordsPerBlock', cf_words)
+    c19_consts(repo, grab)
     # log framing (C12): sst/src/log.rs, sst/src/lib.rs
     def nocomment(t):
         return re.sub(r'//[^\n]*', '', t)
@@ -408,6 +409,75 @@ def extract(repo):
     grab('skipfreeBranching', lambda: eval_int(const_int(read(repo, 'skipfree/src/lib.rs'), 'BRANCHING')))
     c09_consts(repo, grab)
     return out, notes
+
+def c19_consts(repo, grab):
+    """scrunch: the RRR tables and block parameters, the sampling strides and branch factors, Sigma's limits (C19)"""
+    def src(rel):
+        return re.sub(r'//[^\n]*', '', read(repo, rel))
+    def table_rows(text, name):
+        m = re.search(r'const\s+%s\s*:\s*&\[&\[u64\]\]\s*=\s*&\[(.*?)\n\];' % name, text, re.S)
+        if not m:
+            raise Missing(name)
+        rows = re.findall(r'&\[([^\]]*)\]', m.group(1))
+        return [[int(x.strip().replace('_', '')) for x in r.split(',') if x.strip()] for r in rows]
+    def rrr_k_flat():
+        return [x for r in table_rows(src('scrunch/src/bit_vector/rrr.rs'), 'K') for x in r]
+    def rrr_k_lens():
+        return [len(r) for r in table_rows(src('scrunch/src/bit_vector/rrr.rs'), 'K')]
+    def rrr_l():
+        m = re.search(r'const\s+L\s*:\s*&\[usize\]\s*=\s*&\[([^\]]*)\];', src('scrunch/src/bit_vector/rrr.rs'))
+        if not m:
+            raise Missing('L')
+        return [int(x.strip()) for x in m.group(1).split(',') if x.strip()]
+    grab('scrunchRrrKFlat', rrr_k_flat)
+    grab('scrunchRrrKRowLens', rrr_k_lens)
+    grab('scrunchRrrL', rrr_l)
+    grab('scrunchRrrWord', lambda: eval_int(const_int(src('scrunch/src/bit_vector/rrr.rs'), 'WORD')))
+    grab('scrunchRrrSelect', lambda: eval_int(const_int(src('scrunch/src/bit_vector/rrr.rs'), 'SELECT')))
+    def cf_sample():
+        c = src('scrunch/src/bit_vector/cf_rrr.rs')
+        w = eval_int(const_int(c, 'PARAM_WORDS_PER_BLOCK'))
+        return eval_int(const_int(c, 'PARAM_SELECT_SAMPLE'), {'PARAM_WORDS_PER_BLOCK': w})
+    grab('scrunchCfRrrSelectSample', cf_sample)
+    def sa_sampling():
+        lib = src('scrunch/src/lib.rs')
+        vals = set(re.findall(r'SA::construct(?:_u32)?\(\s*(\d+)\s*,', lib))
+        if len(vals) != 1:
+            raise Missing('SA::construct(<sampling>, ...) call sites: %s' % sorted(vals))
+        return int(vals.pop())
+    grab('scrunchSaSampling', sa_sampling)
+    def branch_in(rel, fn_hint):
+        t = src(rel)
+        vals = set(re.findall(r'from_indices\(\s*(\d+)\s*,', t))
+        if len(vals) != 1:
+            raise Missing('from_indices(<branch>, ...) in %s: %s' % (rel, sorted(vals)))
+        return int(vals.pop())
+    grab('scrunchSampledArrayBranch', lambda: branch_in('scrunch/src/sampled.rs', 'construct'))
+    grab('scrunchSigmaBranch', lambda: branch_in('scrunch/src/sigma.rs', 'construct'))
+    grab('scrunchBoundaryBranch', lambda: branch_in('scrunch/src/lib.rs', 'construct'))
+    def sparse_trait_branch():
+        t = src('scrunch/src/bit_vector/sparse.rs')
+        m = re.search(r'Self::from_indices\(\s*(\d+)\s*,\s*bits\.len\(\)', t)
+        if not m:
+            raise Missing('sparse BitVector::construct branch')
+        return int(m.group(1))
+    grab('scrunchSparseConstructBranch', sparse_trait_branch)
+    def sparse_branch_bounds():
+        t = src('scrunch/src/bit_vector/sparse.rs')
+        m = re.search(r'!\(\s*(\d+)\s*\.\.\s*(\d+)\s*\)\.contains\(&branch\)', t)
+        if not m:
+            raise Missing('sparse from_indices branch bounds')
+        return [int(m.group(1)), int(m.group(2))]
+    grab('scrunchSparseBranchBounds', sparse_branch_bounds)
+    def sigma_limits():
+        t = src('scrunch/src/sigma.rs')
+        lim = eval_int(const_int(t, 'DENSE_COUNT_LIMIT'))
+        look = eval_int(const_int(t, 'DENSE_LOOKUP_LIMIT'))
+        m = re.search(r'let\s+mut\s+dense_counts\s*=\s*vec!\[0usize;\s*(\d+)\]', t)
+        if not m:
+            raise Missing('dense_counts initial length')
+        return [lim, look, int(m.group(1))]
+    grab('scrunchSigmaDenseLimits', sigma_limits)
 
 SST_WIRE = {'uint64': 0, 'uint32': 0, 'int64': 0, 'int32': 0, 'sint64': 0, 'sint32': 0, 'Bool': 0, 'fixed64': 1, 'sfixed64': 1,
         'double': 1, 'bytes': 2, 'bytes16': 2, 'bytes32': 2, 'bytes64': 2, 'string': 2, 'message': 2, 'fixed32': 5,
